@@ -143,8 +143,16 @@ class SpecMixin:
     def spec_call(self, name, n):
         c = self.unit.contract
         if name == "implies":
-            a, b = self.eval(n.args[0]), self.eval(n.args[1])
-            fa, fb = self.as_formula(a), self.as_formula(b)
+            a = self.eval(n.args[0])
+            fa = self.as_formula(a)
+            try:
+                b = self.eval(n.args[1])
+            except GenError:
+                ta = self.f_to_term(fa)
+                if ta is not None and not self.feasible(ta):
+                    return True      # vacuous on this path (e.g. names not defined on an early-return path)
+                raise
+            fb = self.as_formula(b)
             ta, tb = self.f_to_term(fa), self.f_to_term(fb)
             if ta is not None and tb is not None:
                 return self.wrap(z3.Implies(ta, tb), "bool")
